@@ -158,8 +158,25 @@ fn run_float<T: Flt>(src: &mut Src, obs: &mut Obs) -> Result<(), Fail> {
         1 => src.usize_in(65, 1000),
         _ => src.usize_in(1001, 10_000),
     };
-    let (cls, x): (&str, Vec<f64>) = match src.below(6) {
+    let (cls, x): (&str, Vec<f64>) = match src.below(8) {
         0 => ("axis11:uniform", axis::<T>(src, n, AxisClass::Uniform, None)),
+        // the classes that look like the index axis in places (ends, first step, most knots), symmetric, dyadic, jittered
+        6 if n <= 300 => {
+            let c = src.pick(&[AxisClass::Anchored, AxisClass::Anchored, AxisClass::Symmetric, AxisClass::Dyadic, AxisClass::Jittered, AxisClass::Unit]);
+            ("axis11:index-like", axis::<T>(src, n, c, None))
+        }
+        7 if n >= 4 => {
+            // the index axis 0..n-1 with interior knots displaced (0, 1 and n-1 stay)
+            let mut v: Vec<f64> = (0..n).map(|i| i as f64).collect();
+            for _ in 0..src.usize_in(1, 3) {
+                let j = src.usize_in(2, n - 2);
+                let cand = j as f64 + src.pick(&[0.5, -0.5, 0.25, -0.25, 0.75, -0.75]);
+                if cand > v[j - 1] && cand < v[j + 1] {
+                    v[j] = cand;
+                }
+            }
+            ("axis11:index-displaced", v)
+        }
         1 => ("axis11:geometric", axis::<T>(src, n, AxisClass::Geometric, None)),
         2 => {
             // logarithmic
